@@ -39,7 +39,12 @@ struct BackRefBlock : public BlockI {
     std::atomic<bool> addedToForUse;
 
     BackRefBlock(const BackRefBlock *blockToUse, intptr_t num) :
+#if ONETBB_VERIF_SIM && defined(ONETBB_VERIF_BACKREF_LEAF)
+        // verification hook (tuning knob): a leaf holds only ONETBB_VERIF_BACKREF_LEAF back references
+        nextForUse(nullptr), bumpPtr((FreeObject*)((uintptr_t)blockToUse + sizeof(BackRefBlock) + (ONETBB_VERIF_BACKREF_LEAF-1)*sizeof(void*))),
+#else
         nextForUse(nullptr), bumpPtr((FreeObject*)((uintptr_t)blockToUse + slabSize - sizeof(void*))),
+#endif
         freeList(nullptr), nextRawMemBlock(nullptr), allocatedCount(0), myNum(num),
         addedToForUse(false) {
         memset(static_cast<void*>(&blockMutex), 0, sizeof(MallocMutex));
@@ -53,7 +58,13 @@ struct BackRefBlock : public BlockI {
 };
 
 // max number of backreference pointers in slab block
+#if ONETBB_VERIF_SIM && defined(ONETBB_VERIF_BACKREF_LEAF)
+// verification hook (tuning knob): small leaves make the table of back references grow after a few dozen
+// slab blocks / large objects instead of after several thousand, so simulated runs reach requestNewSpace()
+static const int BR_MAX_CNT = ONETBB_VERIF_BACKREF_LEAF;
+#else
 static const int BR_MAX_CNT = (BackRefBlock::bytes-sizeof(BackRefBlock))/sizeof(void*);
+#endif
 
 struct BackRefMain {
 /* On 64-bit systems a slab block can hold up to ~2K back pointers to slab blocks
@@ -171,6 +182,9 @@ bool BackRefMain::requestNewSpace()
     if (listForUse.load(std::memory_order_relaxed)) // double check that only one block is available
         return true;
     BackRefBlock *newBl = (BackRefBlock*)backend->getBackRefSpace(blockSpaceSize, &isRawMemUsed);
+#if ONETBB_VERIF_SIM
+    __TBB_VERIF_PROBE(newBl ? "backref_table_grows" : "backref_growth_refused");
+#endif
     if (!newBl) return false;
 
     // touch a page for the 1st time without taking mainMutex ...
